@@ -154,6 +154,26 @@ pub fn run(tier: Tier) -> ! {
             ],
         });
     }
+    // family 3: every string of one ASCII character (all 128) and of two printable ASCII characters
+    // as the text of a positive and of a negative lookahead, as a pattern and as a mode name: no
+    // string may act as a marker of the serialized form
+    let n12 = cfgs.len();
+    {
+        let mut shorts: Vec<String> = (0u8..128).map(|b| (b as char).to_string()).collect();
+        let printable: Vec<char> = (0x20u8..0x7f).map(|b| b as char).collect();
+        for a in &printable {
+            for b in &printable {
+                shorts.push(format!("{a}{b}"));
+            }
+        }
+        for s in &shorts {
+            for pos in [true, false] {
+                cfgs.push(Cfg { modes: vec![CMode { name: "M".into(), pats: vec![CPat { pat: "a".into(), tt: 1, la: Some((pos, s.clone())) }], transitions: vec![] }] });
+            }
+            cfgs.push(Cfg { modes: vec![CMode { name: s.clone(), pats: vec![CPat { pat: s.clone(), tt: 0, la: None }], transitions: vec![(0, 0)] }] });
+        }
+    }
+    let n3 = cfgs.len() - n12;
     cfgs.push(Cfg { modes: vec![] });
     let accs = par_for(cfgs.len(), 64, || Acc { samples: Samples::new(1), ..Default::default() }, |acc, i| {
         let cfg = &cfgs[i];
@@ -184,7 +204,8 @@ pub fn run(tier: Tier) -> ! {
     }
     let mut fams = vec![
         json!({"family": "one mode, one pattern: mode name x pattern string (12 special strings each) x token type {0,1,65535,65536,u32::MAX,usize::MAX} x lookahead {none, positive, negative} x 12 strings x 6 transition lists (targets ascending, descending, mixed)", "configurations": n1, "exhaustive": true}),
-        json!({"family": "1..2 modes, 0..2 patterns: every (pattern string, lookahead option) combined with three second patterns; empty mode list", "configurations": cfgs.len() - n1, "exhaustive": true}),
+        json!({"family": "1..2 modes, 0..2 patterns: every (pattern string, lookahead option) combined with three second patterns; empty mode list", "configurations": n12 - n1, "exhaustive": true}),
+        json!({"family": "every string of one ASCII character (128) and of two printable ASCII characters (95^2) as positive lookahead, as negative lookahead, and as pattern + mode name", "configurations": n3, "exhaustive": true}),
     ];
 
     // README JSON
